@@ -31,7 +31,11 @@ class SchedWorld(JobWorld, BuildWorld):
         self.captures = []            # capture files in creation order (one per started job)
         self.child_capture = {}       # pid -> capture file
         self.child_target = {}        # pid -> target name (from the job's reason string)
-        self.held = set()             # fids whose byte this process has locked
+        self.held = set()             # fids whose byte the process under examination (proc 0) has locked
+        self.proc = 0                 # which process is executing: 0 = the command under examination, pid = a nested sub-redo
+        self.held_by = {}             # fid -> process that holds the byte (nested sub-redos included)
+        self.scripts = None           # {target name: [('ifchange', [names])...]}: what a script does, run with the real code
+        self.nest_depth = 0
         self.other_locks = {}         # fid -> {'outcome': 'built'|'failed'|'clean', 'name': bytes}
         self.nstamp = 0
         self.script_outputs = {}      # pid -> True/False (wrote stdout)
@@ -92,6 +96,72 @@ class SchedWorld(JobWorld, BuildWorld):
             cap.data['pos'] = 5
         if cap is not None and self.script_declares:
             self.script_declares_effect(c)
+        if cap is not None and self.scripts:
+            self.run_script_commands(c)
+
+    def run_script_commands(self, c):
+        """the redo commands of the script of child `c`, executed with the real code as a nested process at the moment the child
+        is seen to exit (a script's commands are atomic with respect to its siblings in this exploration)"""
+        tname = self.child_target_name.get(c['pid'])
+        ops = self.scripts.get(bytes(tname)) if tname is not None else None
+        if not ops or self.nest_depth >= 3:
+            return
+        for op in ops:
+            if op[0] == 'ifchange':
+                rc = self.sub_redo_ifchange(c, bytes(tname), list(op[1]))
+                self.ev('sub-redo', parent=bytes(tname).decode(), targets=[x.decode() for x in op[1]], rc=rc)
+                if rc != 0:
+                    c['forced_status'] = 1           # sh -e: the script stops at the failing command
+                    return
+
+    def sub_redo_ifchange(self, c, tname, names):
+        eng = self.eng
+        saved = (self.proc, self.server_state, self.wakeups, self.timeouts, dict(self.envmap), self.__dict__.get('pending_target'))
+        self.proc = c['pid']
+        self.nest_depth += 1
+        try:
+            tid = [k for k, r in self.files.items() if tuple(r['name']) == tuple(tname)]
+            cyc = self.envmap.get('REDO_CYCLES')
+            ids = ([] if not cyc else bytes(cyc).decode().split(':')) + [str(x) for x in tid]
+            self.envmap['REDO_CYCLES'] = [ord(ch) for ch in ':'.join(ids)]
+            env = dbmodel.make_env(eng, self.runid, log=0, target=rp(tname))
+            ps = dbmodel.make_process_state(eng, env)
+            psr = new_cell(ps)
+            # redo-ifchange's own prelude (bin/redo/ifchange.rs): record the edges on the calling target, commit
+            ptx = dbmodel.begin(eng, psr)
+            ptxr = new_cell(ptx)
+            me = eng.call('state::File::from_name', [ptxr, new_cell(Vec(list(BASE + b'/' + tname), 'PathBuf')), True], None, None)
+            if me.var != 'Ok':
+                return 1
+            mer = new_cell(me.f[0])
+            for n in names:
+                r = eng.call('state::File::add_dep', [mer, ptxr, Enum('DepMode', 'Modified'), new_cell(rp(n))], None, None)
+                if r.var != 'Ok':
+                    return 1
+            eng.call('state::File::save', [mer, ptxr], None, None)
+            eng.call('ProcessTransaction::commit', [ptxr.get()], None, None)
+            server, state, params = jobmodel.make_server(eng, 1, 0, 0)
+            self.server_state = state
+            sref = new_cell(server)
+            href = new_cell(eng.call('JobServer::handle', [sref], None, None))
+            tvec = Vec([rp(n) for n in names], 'Vec<RedoPathBuf>')
+            root = eng.call('builder::run', [psr, href, tvec, FnItem('ifchange::should_build')], None, None)
+            res = eng.call('JobServer::block_on', [sref, root], None, None)
+            eng.call('JobServer::do_force_return_tokens', [sref], None, None)
+            return 0 if res.var == 'Ok' else 1
+        finally:
+            self.nest_depth -= 1
+            self.proc, self.server_state, self.wakeups, self.timeouts, self.envmap, pt = saved
+            self.pending_target = pt
+
+    def waitpid(self, eng, pid, opts, sp):
+        r = JobWorld.waitpid(self, eng, pid, opts, sp)
+        p = pid.f[0].f[0] if isinstance(pid, Enum) and pid.var == 'Some' else None
+        for c in self.children:
+            if c['pid'] == p and c.get('forced_status') is not None and r.var == 'Ok':
+                # the script's own redo-ifchange failed: its exit status is not free
+                eng.assume(c['status'] != 0)
+        return r
 
     def script_declares_effect(self, c):
         """`redo-ifchange <source>` in the script: what ifchange::run commits for a source file - the edge, and the source's row
@@ -148,10 +218,21 @@ class SchedWorld(JobWorld, BuildWorld):
         ltype = eng.concrete(f['l_type'], 'l_type')
         fid = eng.concrete(f['l_start'], 'l_start')
         if ltype == F_UNLCK:
-            self.held.discard(fid)
-            self.ev('unlock', fid=fid)
+            if self.held_by.get(fid) == self.proc:
+                del self.held_by[fid]
+            if self.proc == 0:
+                self.held.discard(fid)
+            self.ev('unlock', fid=fid, proc=self.proc)
             self.lock_log.append(('unlock', fid))
             return ok(0)
+        owner = self.held_by.get(fid)
+        if owner is not None and owner != self.proc:
+            # held by another process of this tree (the parent that started the script, or a sub-redo)
+            if kind == 'F_SETLK':
+                self.ev('try-lock', fid=fid, got=False, proc=self.proc, holder=owner)
+                return err(Enum('Errno', 'EAGAIN'))
+            raise Hang('F_SETLKW by process %s on file id %d, which process %s of the same tree holds while it waits for this one' % (
+                self.proc, fid, owner))
         if kind == 'F_SETLK':
             if fid in self.other_locks:
                 o = self.other_locks[fid]
@@ -163,11 +244,13 @@ class SchedWorld(JobWorld, BuildWorld):
                 # the holder finishes and lets go after this process read the target's row, before it asks for the lock
                 self.other_finishes(eng, fid)
             if fid in self.other_locks:
-                self.ev('try-lock', fid=fid, got=False)
+                self.ev('try-lock', fid=fid, got=False, proc=self.proc)
                 self.lock_log.append(('try-fail', fid))
                 return err(Enum('Errno', 'EAGAIN'))
-            self.held.add(fid)
-            self.ev('try-lock', fid=fid, got=True)
+            self.held_by[fid] = self.proc
+            if self.proc == 0:
+                self.held.add(fid)
+            self.ev('try-lock', fid=fid, got=True, proc=self.proc)
             self.lock_log.append(('lock', fid))
             return ok(0)
         if kind == 'F_SETLKW':
@@ -175,7 +258,7 @@ class SchedWorld(JobWorld, BuildWorld):
             if getattr(self, 'server_state', None) is not None:
                 mt = jobmodel.state_fields(eng, self.server_state)['my_tokens']
                 mt = mt if isinstance(mt, int) else repr(mt)
-            self.ev('wait-lock', fid=fid, holding=sorted(self.held), running=len(self.running()),
+            self.ev('wait-lock', fid=fid, proc=self.proc, holding=sorted(self.held), running=len(self.running()),
                     exited_unreaped=len([c for c in self.children if c['state'] == 'exited']), my_tokens=mt)
             self.lock_log.append(('wait', fid, tuple(sorted(self.held))))
             if fid in self.other_locks:
@@ -183,7 +266,9 @@ class SchedWorld(JobWorld, BuildWorld):
                     # the holder is an ancestor of this process: it waits for us
                     raise Hang('F_SETLKW on file id %d, whose lock is held by an ancestor of this process that is waiting for it' % fid)
                 self.other_finishes(eng, fid)
-            self.held.add(fid)
+            self.held_by[fid] = self.proc
+            if self.proc == 0:
+                self.held.add(fid)
             self.lock_log.append(('lock', fid))
             return ok(0)
         raise Unsupported('fcntl %s' % kind)
@@ -229,7 +314,7 @@ def rp(name):
 
 
 def setup(eng, targets, keep_going=False, top_level=2, pipe0=1, others0=0, runid=10, should_build=None, max_wakeups=10,
-          prior=None, other_locks=None, sub_target=None, shuffle=False, no_do=(), race=(), deps=(), free_at_try=None, cycles=(), default_do=False):
+          prior=None, other_locks=None, sub_target=None, shuffle=False, no_do=(), race=(), deps=(), free_at_try=None, cycles=(), default_do=False, scripts=None):
     """-> (world, server cell, root future = the real builder::run coroutine)"""
     w = SchedWorld(eng, runid, pipe0, others0, adv_budget=(1 if top_level == 0 else 0), allow_steal=(top_level == 0),
                    max_wakeups=max_wakeups)
@@ -248,6 +333,13 @@ def setup(eng, targets, keep_going=False, top_level=2, pipe0=1, others0=0, runid
     ids = {}
     if default_do:
         w.fs[tuple(b'default.do')] = tuple(S1)
+    w.scripts = scripts
+    for tn, ops in (scripts or {}).items():
+        for op in ops:
+            for n in op[1]:
+                if n + b'.do' not in [bytes(k) for k in w.fs] and not (prior and n in prior):
+                    w.fs[tuple(n + b'.do')] = tuple(S1)      # a nested target has its own rule
+                    w.fs.setdefault(tuple(n), None)
     for name, (cells, fs_t) in (prior or {}).items():
         w.add_file(rid, name, **cells)
         ids[name] = rid
